@@ -13,8 +13,9 @@
    The full statements are refuted by the faithful model (witnesses = the known findings); what IS proved:
    the constructors of both languages hold every declared value of the `simple` fields (bool, string, integer
    and float scalars, constants, lists of strings, with a default free of json.Number), at any position of
-   any struct, and therefore agree on them; per format, a scalar default that fits its field arrives unaltered
-   from CUE and OpenAPI, and from JSON Schema when it is a boolean or a string. *)
+   any struct, and therefore agree on them; a scalar default that fits its field arrives unaltered from each of
+   the three formats (JSON Schema: since the fix that unwraps json.Number in walkNumber; list elements are still
+   json.Number there). *)
 From Coq Require Import List String ZArith Bool.
 From Cog Require Import Model.IR Model.Json Model.GoSemBase Model.GoSemDecode Model.Ctor Model.PySem Model.CtorSpec
   Model.Passes Model.PassesChain Model.Process Gen.Chains_gen Proofs.CtorProofs.
@@ -88,29 +89,21 @@ Proof. exact CtorProofs.go_py_agree_partial. Qed.
 Print Assumptions go_py_agree_partial.
 
 (* ---- a default the source schema accepts is not altered, re-typed or dropped: per input format ---- *)
-(* CUE and OpenAPI, scalars *)
-Theorem default_not_altered_cue_openapi : forall fmt numtext pt k j,
-  (seqb fmt "cue" || seqb fmt "openapi")%bool = true -> numtext_ok numtext ->
-  scalar_json_value j = true -> fits_scalar k j = true -> is_datetime pt = false ->
+(* scalars, all three formats (JSON Schema since numeric defaults are unwrapped from json.Number) *)
+Theorem default_not_altered_scalars : forall fmt numtext pt k j,
+  numtext_ok numtext -> scalar_json_value j = true -> fits_scalar k j = true -> is_datetime pt = false ->
   (exists v, assign_scalar pt k (format_scalar (fe_value fmt numtext j)) = COk v /\ gscalar_holds v j = true) /\
   py_lit_json (fe_value fmt numtext j) = POk j.
-Proof. exact CtorProofs.default_not_altered_cue_openapi. Qed.
-Print Assumptions default_not_altered_cue_openapi.
+Proof. exact CtorProofs.default_not_altered_scalars. Qed.
+Print Assumptions default_not_altered_scalars.
 
-(* JSON Schema, refuted for every number: Go does not compile, Python holds a string *)
-Theorem default_not_altered_jsonschema_refuted : forall numtext pt k m e,
-  fits_scalar k (JNum m e) = true ->
-  (exists w, assign_scalar pt k (format_scalar (fe_value "jsonschema" numtext (JNum m e))) = CNoCompile w) /\
-  py_lit_json (fe_value "jsonschema" numtext (JNum m e)) = POk (JStr (numtext m e)).
-Proof. exact CtorProofs.default_altered_jsonschema_numbers. Qed.
-Print Assumptions default_not_altered_jsonschema_refuted.
-
-Theorem default_not_altered_jsonschema_partial : forall numtext pt k j,
-  match j with JBool _ | JStr _ => True | _ => False end -> fits_scalar k j = true -> is_datetime pt = false ->
-  (exists v, assign_scalar pt k (format_scalar (fe_value "jsonschema" numtext j)) = COk v /\ gscalar_holds v j = true) /\
-  py_lit_json (fe_value "jsonschema" numtext j) = POk j.
-Proof. exact CtorProofs.default_not_altered_jsonschema_partial. Qed.
-Print Assumptions default_not_altered_jsonschema_partial.
+(* refuted for LIST defaults in JSON Schema: the elements stay json.Number, printed as quoted strings: Python holds
+   strings; Go rejects the literal (as it does for every list of non-strings, in every format) *)
+Theorem default_not_altered_jsonschema_lists_refuted : forall numtext m e a,
+  py_lit_json (fe_value "jsonschema" numtext (JArr [JNum m e])) = POk (JArr [JStr (numtext m e)]) /\
+  (exists w, assign (TArray a (TScalar attrs0 KInt64 DNil [])) (format_scalar (fe_value "jsonschema" numtext (JArr [JNum m e]))) = CNoCompile w).
+Proof. exact CtorProofs.default_altered_jsonschema_list_numbers. Qed.
+Print Assumptions default_not_altered_jsonschema_lists_refuted.
 
 (* dropped before any jenny runs *)
 Theorem defaults_dropped_by_front_ends : forall numtext j,
